@@ -18,6 +18,8 @@ structure Fields where
   split : Option Bool := none
   headBlock : Option Bool := none
   blockNumber : Option Nat := none
+  /-- harness-only tag (`data['uid']`) that lets specifications speak about node identity -/
+  uid : Option Nat := none
 deriving DecidableEq, Repr, Inhabited
 
 /-- `leaf num f` : a token (no children, `data['num'] = num`);
